@@ -675,6 +675,131 @@ fn c01(r: &mut Rep) {
     }
 }
 
+
+// c01, tuple counterparts: Into writes position k for the k-th rendered member, in the literal `B(e0, e1, ..)` and in the
+// `obj.k = ..;` form that a bare #[parent] forces (ghost and parent members are not rendered and take no position)
+fn c01_tuple(r: &mut Rep) {
+    // (member text, rendered expression on `self.<decl index>` or None when skipped, is parent)
+    let forms = |i: usize| -> Vec<(String, Option<String>, bool)> { vec![
+        ("i32".into(), Some(format!("self.{}", i)), false),
+        ("#[map(~.clone())] i32".into(), Some(format!("self.{}.clone()", i)), false),
+        ("#[ghost({ 7 })] i32".into(), None, false),
+        ("#[parent] P".into(), None, true),
+    ] };
+    let mut combos: Vec<Vec<(String, Option<String>, bool)>> = vec![vec![]];
+    for i in 0..4 { let mut nx = vec![]; for c in &combos { for f in forms(i) { let mut t = c.clone(); t.push(f); nx.push(t); } } combos = nx; }
+    for ms in combos {
+        for (head, named) in [("B", false), ("B as ()", false), ("B as ()", true)] {
+            let body = if named { format!("struct A {{ {} }}", ms.iter().enumerate().map(|(i, m)| format!("{} : {}", m.0.replacen(" i32", &format!(" m{}: i32", i), 1).replacen(" P", &format!(" m{}: P", i), 1).replace(": i32 : ", ": ").replace(": P : ", ": "), "")).collect::<Vec<_>>().join(", ")) } else { format!("struct A({});", ms.iter().map(|m| m.0.clone()).collect::<Vec<_>>().join(", ")) };
+            if named { continue; }   // named members onto a positional counterpart: covered by the Verus cells; the text surgery above is not worth it
+            let src = format!("#[into({})]\n{}", head, body);
+            r.cases += 1;
+            let out = match expand(&src) { Ok(o) => o, Err(_) => continue };
+            let is = match impls(&out) { Ok(i) => i, Err(e) => { r.fail(&src, e); continue; } };
+            let rendered: Vec<String> = ms.iter().filter_map(|m| m.1.clone()).collect();
+            let parents: Vec<usize> = ms.iter().enumerate().filter(|(_, m)| m.2).map(|(i, _)| i).collect();
+            for i in &is {
+                let by_ref = i.head.contains("for & A");
+                let toks: Vec<String> = i.stmts.iter().map(|s| ts(s).replace(' ', "")).collect();
+                let exp: Vec<String> = if parents.is_empty() {
+                    vec![format!("B({})", rendered.iter().map(|e| format!("{},", e)).collect::<String>())]
+                } else {
+                    let mut v = vec!["letmutobj:B=Default::default();".to_string()];
+                    for (k, e) in rendered.iter().enumerate() { v.push(format!("obj.{}={};", k, e)); }
+                    for p in &parents { v.push(format!("{}.into_existing(&mutobj);", if by_ref { format!("(&(self.{}))", p) } else { format!("self.{}", p) })); }
+                    v.push("obj".into());
+                    v
+                };
+                let unit_ok = rendered.is_empty() && parents.is_empty();
+                if toks != exp && !(unit_ok && (toks == ["B()"] || toks == ["B"])) { r.fail(&src, format!("[{}] body {:?}, expected {:?}", i.head, toks, exp)); break; }
+            }
+        }
+    }
+}
+
+// ---------------------------------------------------------------- c04: exactly the documented impls, one per (kind, fallibility, counterpart)
+fn documented(name: &str) -> (bool, Vec<&'static str>) {
+    let fall = name.contains("try_");
+    let n = name.replace("try_", "");
+    let kinds: Vec<&'static str> = match n.as_str() {
+        "owned_into" => vec!["OwnedInto"], "ref_into" => vec!["RefInto"], "into" => vec!["OwnedInto", "RefInto"],
+        "from_owned" => vec!["FromOwned"], "from_ref" => vec!["FromRef"], "from" => vec!["FromOwned", "FromRef"],
+        "map_owned" => vec!["FromOwned", "OwnedInto"], "map_ref" => vec!["FromRef", "RefInto"], "map" => vec!["FromOwned", "FromRef", "OwnedInto", "RefInto"],
+        "owned_into_existing" => vec!["OwnedIntoExisting"], "ref_into_existing" => vec!["RefIntoExisting"], "into_existing" => vec!["OwnedIntoExisting", "RefIntoExisting"],
+        _ => vec![],
+    };
+    (fall, kinds)
+}
+fn header(kind: &str, fall: bool, own: &str, other: &str) -> String {
+    let t = if fall { "Try" } else { "" };
+    match kind {
+        "FromOwned" => format!("::core::convert::{}From<{}>for{}", t, other, own),
+        "FromRef" => format!("::core::convert::{}From<&{}>for{}", t, other, own),
+        "OwnedInto" => format!("::core::convert::{}Into<{}>for{}", t, other, own),
+        "RefInto" => format!("::core::convert::{}Into<{}>for&{}", t, other, own),
+        "OwnedIntoExisting" => format!("o2o::traits::{}IntoExisting<{}>for{}", t, other, own),
+        _ => format!("o2o::traits::{}IntoExisting<{}>for&{}", t, other, own),
+    }
+}
+
+fn c04(r: &mut Rep) {
+    let names = ["owned_into", "ref_into", "into", "from_owned", "from_ref", "from", "map_owned", "map_ref", "map", "owned_into_existing", "ref_into_existing", "into_existing",
+        "owned_try_into", "ref_try_into", "try_into", "try_from_owned", "try_from_ref", "try_from", "try_map_owned", "try_map_ref", "try_map", "owned_try_into_existing", "ref_try_into_existing", "try_into_existing"];
+    let bodies = [("struct A { x: i32 }", false), ("enum A { V, W(i32) }", true), ("struct A(i32, i32);", false)];
+    let types = ["B", "crate::m::B", "B<i32>", "(i32, i32)"];
+    let errs = ["E", "E<i32>"];
+    let args = |n: &str, t: &str, e: &str| if n.contains("try_") { format!("{}, {}", t, e) } else { t.to_string() };
+    let check = |r: &mut Rep, src: &str, instrs: &[(&str, &str)], e: &str| -> Option<Vec<String>> {
+        // into_existing on an enum: recorded open defect (body is not Rust, DESIGN section 6) - the header check needs a parsable item
+        if src.contains("enum A") && src.contains("existing") { return None; }
+        r.cases += 1;
+        let out = match expand(src) { Ok(o) => o, Err(_) => return None };
+        let f: syn::File = match syn::parse_str(&out) { Ok(f) => f, Err(er) => { r.fail(src, format!("not Rust items: {}", er)); return None; } };
+        let mut got: Vec<String> = vec![];
+        for it in &f.items { if let syn::Item::Impl(i) = it {
+            got.push(format!("{}for{}", i.trait_.as_ref().map(|t| ts(&t.1)).unwrap_or_default(), ts(&i.self_ty)).replace(' ', ""));
+            let fall = i.trait_.as_ref().map(|t| ts(&t.1).contains("Try")).unwrap_or(false);
+            let err: Vec<String> = i.items.iter().filter_map(|x| if let syn::ImplItem::Type(t) = x { Some(ts(&t.ty).replace(' ', "")) } else { None }).collect();
+            if fall && err != [e.replace(' ', "")] { r.fail(src, format!("`type Error` of a fallible impl: {:?}, declared {}", err, e)); }
+            if !fall && !err.is_empty() { r.fail(src, "an infallible impl has an associated type".into()); }
+        } }
+        let mut exp: Vec<String> = vec![];
+        for (n, t) in instrs { let (fall, kinds) = documented(n); for k in kinds { exp.push(header(k, fall, "A", &t.replace(' ', ""))); } }
+        let (mut g, mut x) = (got.clone(), exp.clone());
+        g.sort(); x.sort();
+        let mut xd = x.clone(); xd.dedup();
+        if xd.len() != x.len() {
+            // the same (kind, fallibility, counterpart) requested twice: there is no way to emit "one impl per request" - must not be accepted
+            r.fail(src, format!("accepted although one (kind, fallibility, counterpart) is requested twice; impls emitted: {:?}", g));
+            return None;
+        }
+        if g != x { r.fail(src, format!("impls {:?}, documented {:?}", g, x)); return None; }
+        Some(got)
+    };
+    for (body, is_enum) in bodies {
+        for e in errs {
+            for t in types {
+                if *t == *"(i32, i32)" && (is_enum || body.contains('{')) { continue; }
+                for n in names {
+                    let src = format!("#[{}({})]\n{}", n, args(n, t, e), body);
+                    if expand(&src).is_err() { r.cases += 1; r.fail(&src, "a single documented instruction is rejected".into()); continue; }
+                    check(r, &src, &[(n, t)], e);
+                }
+            }
+            // pairs: same counterpart (overlaps must be rejected), different counterparts, both orders
+            for n1 in names { for n2 in names {
+                for (t1, t2) in [("B", "B"), ("B", "C"), ("B<i32>", "B<u8>")] {
+                    let s12 = format!("#[{}({})]\n#[{}({})]\n{}", n1, args(n1, t1, e), n2, args(n2, t2, e), body);
+                    let s21 = format!("#[{}({})]\n#[{}({})]\n{}", n2, args(n2, t2, e), n1, args(n1, t1, e), body);
+                    let a = check(r, &s12, &[(n1, t1), (n2, t2)], e);
+                    let b = check(r, &s21, &[(n2, t2), (n1, t1)], e);
+                    if let (Some(mut a), Some(mut b)) = (a, b) { a.sort(); b.sort(); if a != b { r.fail(&s12, "the set of impls depends on the order of the instructions".into()); } }
+                }
+            } }
+        }
+    }
+}
+
 fn main() {
     panic::set_hook(Box::new(|_| {}));
     let suite = std::env::args().nth(1).unwrap_or_default();
@@ -684,7 +809,8 @@ fn main() {
         "c03" => c03(&mut r),
         "c11" => c11(&mut r),
         "c07" => c07(&mut r),
-        "c01" => c01(&mut r),
+        "c01" => { c01(&mut r); c01_tuple(&mut r); }
+        "c04" => c04(&mut r),
         "c17" => c17(&mut r),
         _ => { eprintln!("usage: structural c08|c03|c11"); std::process::exit(2); }
     }
